@@ -1,8 +1,8 @@
 ----------------------------- MODULE AddrBook_Gen -----------------------------
 (* Statement sequences for replay into the real assembler; every step records what the specification   *)
 (* predicts (active segment, load and execution address before the statement, values of labels, field   *)
-(* offsets and structure lengths).  Only statements with a definite documented outcome are generated:  *)
-(* ORG only while no PHASE offset is in force, structures one level deep.                               *)
+(* offsets and structure lengths).  Structures are one level deep.  ORG while a PHASE offset is in     *)
+(* force follows the implemented reading (argument = execution address, see AddrBook.Org).             *)
 EXTENDS AddrBook, TLC, Json
 CONSTANTS MaxLen, Lim,     \* Lim: exclusive upper bound of addresses used
           Small,          \* TRUE: one or two representative arguments per statement (for the transition cover)
@@ -31,7 +31,7 @@ Next ==
      \/ ~Small /\ Ordinary /\ Do("READPC", [n |-> 1, val |-> Exec(b)], MarkUsed(Advance(b, 1)))
      \/ \E c \in (IF Small THEN {0, 3} ELSE {0, 1, 2, 7}) : Do(IF Ordinary THEN "RESERVE" ELSE "FIELD", [n |-> c, val |-> Load(b)], MarkUsed(Advance(b, c)))
      \/ \E a \in (IF Small THEN {16, Load(b) + 3} ELSE {0, 16, 100, 1000, Load(b) + 3, Load(b)}) :
-           Ordinary /\ b.ph[b.act] = 0 /\ Do("ORG", [a |-> a], MarkUsed(Org(b, a)))
+           Ordinary /\ Do("ORG", [a |-> a], MarkUsed(Org(b, a)))
      \/ \E d \in (IF Small THEN {4} ELSE {1, 4, 32}) : Ordinary /\ Do("RORG", [d |-> d], MarkUsed(Rorg(b, d)))
      \/ \E a \in (IF Small THEN {4} ELSE {2, 4, 8, 16}) : Ordinary /\ Do("ALIGN", [a |-> a, gap |-> AlignGap(b, a)], MarkUsed(Align(b, a)))
      \/ \E s \in Segs : Ordinary /\ s # b.act /\ Do("SEGMENT", [s |-> s], MarkUsed(Segment(b, s, 0)))
